@@ -849,12 +849,14 @@ def rule_rangecoder(facts):
         r.bad("rangeenc|bound", "the bound is not (range >> 11) * prob: %s" % [flow.show(x)[:60] for x in bounds], pat.where(e))
     # probability updates: stores through *prob
     ups = []
+    ups_stmt = []
     for blk in e.blocks:
         if blk.cleanup:
             continue
         for i, s in enumerate(blk.stmts):
             if s.k == "assign" and s.place.proj and s.place.proj[0][0] == "deref" and e.locals[s.place.local].name == "prob":
                 ups.append((blk.idx, pt.at(blk.idx, i).of_rvalue(s.rv, blk.idx)))
+                ups_stmt.append((blk.idx, i, s))
     gs = pat.path_guards
     term_at = lambda blk: pt.at(blk.idx, None).of_operand(blk.term.discr)
     seen = {}
@@ -875,6 +877,29 @@ def rule_rangecoder(facts):
         r.bad("rangeenc|prob-overflow", "a probability update overflows: %s" % flow.show(ex.args[0])[:60], pat.where(e))
     except pat.NotEvaluable as ex:
         r.bad("rangeenc|prob-term", "cannot evaluate a probability update: %s" % flow.show(ex.args[0])[:60], pat.where(e), "unverifiable")
+    if not seen and len(ups_stmt) == 1 and ups_stmt[0][2].rv.k == "use" and ups_stmt[0][2].rv.op.place is not None and \
+            not ups_stmt[0][2].rv.op.place.proj:
+        # one store of a value chosen by the bit (`*prob = match bit { .. }`, possibly in a spliced helper): the stored value
+        # under each bit, for every probability
+        bb_, i_, s_ = ups_stmt[0]
+        try:
+            for bitv in (0, 1):
+                exp = (lambda p_: p_ - (p_ >> 5)) if bitv else (lambda p_: p_ + ((0x800 - p_) >> 5))
+
+                def lfb(p_, bitv=bitv):
+                    base = leaf(1 << 24, p_)
+
+                    def f(q):
+                        if q[0] == "arg" and q[2] == "bit":
+                            return bitv
+                        return base(q)
+                    return f
+                badp = [p_ for p_ in range(1, 0x800, 7) if pat.eval_gated(e, pt, s_.rv.op.place.local, bb_, lfb(p_), i_) != exp(p_)]
+                seen[bool(bitv)] = not badp
+                if badp:
+                    r.bad("rangeenc|prob-%d" % bitv, "probability update for bit %d differs from the decoder's at prob 0x%x" % (bitv, badp[0]), pat.where(e, bb_))
+        except (pat.NotEvaluable, pat.Overflow):
+            seen.clear()
     if seen.get(True) and seen.get(False):
         r.ok("evaluation", {"prob update": "p -= p >> 5 (bit 1), p += (0x800 - p) >> 5 (bit 0), all 2047 probabilities"})
     elif True not in seen or False not in seen:
